@@ -23,9 +23,24 @@ def sh(cmd, cwd=None, timeout=1800):
         return -9, (e.stdout or b"").decode(errors="replace") if isinstance(e.stdout, bytes) else (e.stdout or "")
 
 
+def demo_flags():
+    """sanitizer / define flags the demonstration says it needs (demo.txt quotes its own build command)"""
+    try:
+        txt = open(os.path.join(src, "demo.txt")).read()
+    except OSError:
+        return []
+    fl = []
+    for f in ("-fsanitize=thread", "-fsanitize=address,undefined", "-fsanitize=address", "-DNDEBUG"):
+        if f in txt.split("\n\n")[0] or f in txt.splitlines()[0]:
+            fl.append(f)
+    if "-fsanitize=address,undefined" in fl and "-fsanitize=address" in fl:
+        fl.remove("-fsanitize=address")
+    return fl
+
+
 def demo(incl, tag):
     exe = os.path.join(wt, "demo_" + tag)
-    rc, out = sh(["g++", "-std=c++20", "-O1", "-g", "-pthread", "-I" + incl, os.path.join(src, "demo.cpp"), "-o", exe])
+    rc, out = sh(["g++", "-std=c++20", "-O1", "-g", "-pthread"] + demo_flags() + ["-I" + incl, os.path.join(src, "demo.cpp"), "-o", exe])
     if rc != 0:
         return None, out[-1500:]
     rcs = []
